@@ -60,9 +60,9 @@ theorem step_frozen {P : Params} {s s' : State} (h1 : Inv1 P s) (hs : Step P s s
   | execReadBase i l k reads blocked hp hr => exact ⟨rfl, rfl, hj⟩
   | execFinishOk i w o reads blocked hp => exact ⟨rfl, rfl, hj⟩
   | execFinishErr i e reads blocked hp => exact ⟨rfl, rfl, hj⟩
-  | publishOne i run l todo newLoc v hp hv => exact ⟨rfl, rfl, hj⟩
+  | publishOne i run l todo newLoc v hp hl hv => exact ⟨rfl, rfl, hj⟩
   | endPublish i run newLoc hp => exact ⟨rfl, rfl, hj⟩
-  | removeOne i run l todo newLoc hp => exact ⟨rfl, rfl, hj⟩
+  | removeOne i run l todo newLoc hp hl => exact ⟨rfl, rfl, hj⟩
   | recordBlocked i run newLoc hp hb =>
     have := key i (by rw [hp]; simp)
     exact ⟨by simp [setPhase, updF, this], rfl, hj⟩
@@ -72,10 +72,10 @@ theorem step_frozen {P : Params} {s s' : State} (h1 : Inv1 P s) (hs : Step P s s
   | recordDirect i run hp hb =>
     have := key i (by rw [hp]; simp)
     exact ⟨by simp [updF, this], by simp [updF, this], hj⟩
-  | markErrSome i e ow l todo en hp hm => exact ⟨rfl, rfl, hj⟩
-  | markErrNone i e ow l todo hp hm => exact ⟨rfl, rfl, hj⟩
-  | markValSome i l todo en hp hm => exact ⟨rfl, rfl, hj⟩
-  | markValNone i l todo hp hm => exact ⟨rfl, rfl, hj⟩
+  | markErrSome i e ow l todo en hp hl hm => exact ⟨rfl, rfl, hj⟩
+  | markErrNone i e ow l todo hp hl hm => exact ⟨rfl, rfl, hj⟩
+  | markValSome i l todo en hp hl hm => exact ⟨rfl, rfl, hj⟩
+  | markValNone i l todo hp hl hm => exact ⟨rfl, rfl, hj⟩
   | endErrMark i e ow hp =>
     have := key i (by rw [hp]; simp)
     exact ⟨by simp [updF, this], rfl, hj⟩
@@ -89,7 +89,7 @@ theorem step_frozen {P : Params} {s s' : State} (h1 : Inv1 P s) (hs : Step P s s
       rcases hst with h' | h' <;> rw [h'] at hfin <;> cases hfin
     exact ⟨rfl, by simp [updF, this], hj⟩
   | valTs i r hp hr => exact ⟨rfl, rfl, hj⟩
-  | valCheck i ts done r todo conflict hp => exact ⟨rfl, rfl, hj⟩
+  | valCheck i ts done r todo conflict k hp hk => exact ⟨rfl, rfl, hj⟩
   | endScanConflict i ts done hp => exact ⟨rfl, rfl, hj⟩
   | endScanOk i ts done hp =>
     have := key i (by rw [hp]; simp)
@@ -203,22 +203,22 @@ theorem inv5_step {P : Params} {s s' : State} (h1 : Inv1 P s) (h2 : Inv2 s) (h3 
   | execReadBase i l k reads blocked hp hr => exact ⟨hold, h.outcomes⟩
   | execFinishOk i w o reads blocked hp => exact ⟨hold, h.outcomes⟩
   | execFinishErr i e reads blocked hp => exact ⟨hold, h.outcomes⟩
-  | publishOne i run l todo newLoc v hp hv => exact ⟨hold, h.outcomes⟩
+  | publishOne i run l todo newLoc v hp hl hv => exact ⟨hold, h.outcomes⟩
   | endPublish i run newLoc hp => exact ⟨hold, h.outcomes⟩
-  | removeOne i run l todo newLoc hp => exact ⟨hold, h.outcomes⟩
+  | removeOne i run l todo newLoc hp hl => exact ⟨hold, h.outcomes⟩
   | recordBlocked i run newLoc hp hb => exact ⟨hold, h.outcomes⟩
   | recordRewind i run newLoc handoff hp hb hn => exact ⟨hold, h.outcomes⟩
   | recordDirect i run hp hb => exact ⟨hold, h.outcomes⟩
-  | markErrSome i e ow l todo en hp hm => exact ⟨hold, h.outcomes⟩
-  | markErrNone i e ow l todo hp hm => exact ⟨hold, h.outcomes⟩
-  | markValSome i l todo en hp hm => exact ⟨hold, h.outcomes⟩
-  | markValNone i l todo hp hm => exact ⟨hold, h.outcomes⟩
+  | markErrSome i e ow l todo en hp hl hm => exact ⟨hold, h.outcomes⟩
+  | markErrNone i e ow l todo hp hl hm => exact ⟨hold, h.outcomes⟩
+  | markValSome i l todo en hp hl hm => exact ⟨hold, h.outcomes⟩
+  | markValNone i l todo hp hl hm => exact ⟨hold, h.outcomes⟩
   | endErrMark i e ow hp => exact ⟨hold, h.outcomes⟩
   | tailTs i k st hp => exact ⟨hold, h.outcomes⟩
   | tailLts i k ts st hp => exact ⟨hold, h.outcomes⟩
   | claimVal i hp hst => exact ⟨hold, h.outcomes⟩
   | valTs i r hp hr => exact ⟨hold, h.outcomes⟩
-  | valCheck i ts done r todo conflict hp => exact ⟨hold, h.outcomes⟩
+  | valCheck i ts done r todo conflict k hp hk => exact ⟨hold, h.outcomes⟩
   | endScanConflict i ts done hp => exact ⟨hold, h.outcomes⟩
   | endScanOk i ts done hp => exact ⟨hold, h.outcomes⟩
   | endValMark i hp => exact ⟨hold, h.outcomes⟩
